@@ -58,8 +58,11 @@ pub fn bitmap(cex: &Value) -> Result<String, String> {
     let mut doc = CoreDocument::builder(Object::new()).id(did.clone()).build().unwrap();
     doc.insert_service(RevocationBitmap::new().to_service(sid.clone()).unwrap()).unwrap();
     let mut model = std::collections::BTreeSet::new();
-    let probes: Vec<u32> = vec![0, 1, 2, 3, 9, 15, 254, 1000, 1337, 65535, 65536, 65537, u32::MAX];
-    for (revoke, batch) in [(true, vec![3u32, 9, 254, 65536]), (true, vec![2, 15, 1337, 1000, 0, 1, 65535, 65537]), (false, vec![9, 1000, 7]), (true, vec![u32::MAX]), (false, vec![3, 254, 65536, u32::MAX])] {
+    let mut probes: Vec<u32> = vec![0, 1, 2, 3, 9, 15, 254, 1000, 1337, 65535, 65536, 65537, u32::MAX];
+    probes.extend(18..80u32);
+    for (revoke, batch) in [(true, vec![3u32, 9, 254, 65536]), (true, vec![2, 15, 1337, 1000, 0, 1, 65535, 65537]), (false, vec![9, 1000, 7]), (true, vec![u32::MAX]), (false, vec![3, 254, 65536, u32::MAX]),
+      // batches with repeats, gaps filled by repeats, blocks in any order, a repeat at the end
+      (true, vec![20, 22, 22]), (false, vec![20, 22, 20]), (true, vec![40, 41, 42, 43]), (false, vec![43, 41, 41]), (true, vec![50, 52, 51, 50]), (true, vec![60, 60]), (false, vec![61, 60, 60]), (true, vec![70, 72, 74, 72, 70])] {
       let res = if revoke { doc.revoke_credentials(&sid, &batch) } else { doc.unrevoke_credentials(&sid, &batch) };
       if let Err(e) = res {
         log.push(format!("[document] {} {:?} failed: {e}", if revoke { "revoke" } else { "unrevoke" }, batch));
